@@ -106,8 +106,40 @@ def detect(d, pid, tier='quick'):
     sh('cd %s && git checkout -- evidence' % VERIF)
 
 
+def regress(repo, only=None):
+  """Re-runs, against a scratch copy of the repository (e.g. $VP_RUN_REPO of `vp run --with-repo`), the recorded check of every
+  kept seeded change: each must still be reported. Prints one JSON line per change."""
+  import glob
+  here = os.path.dirname(os.path.abspath(__file__))
+  bad = 0
+  for mp in sorted(glob.glob(os.path.join(here, 'seeded', '*', 'meta.json'))):
+    sid = os.path.basename(os.path.dirname(mp))
+    if only and not any(sid.startswith(o) for o in only):
+      continue
+    pid = json.load(open(mp))['detection']['check']
+    a = sh('git -C %s apply %s/patch.diff' % (repo, os.path.dirname(mp)))
+    if a.returncode:
+      print(json.dumps({'seed': sid, 'error': 'patch does not apply'}), flush=True)
+      bad += 1
+      continue
+    try:
+      r = sh('cd %s && VIZIER_REPO=%s ./check %s --tier quick' % (here, repo, pid), timeout=3000)
+      rc = r.returncode
+    except Exception as e:  # pylint: disable=broad-except
+      rc = 'timeout'
+    finally:
+      sh('git -C %s checkout -- .' % repo)
+    ok = rc == 1
+    bad += 0 if ok else 1
+    print(json.dumps({'seed': sid, 'check': pid, 'rc': rc, 'detected': ok}), flush=True)
+  print('REGRESS done: %d not detected' % bad, flush=True)
+
+
 if __name__ == '__main__':
   cmd = sys.argv[1]
+  if cmd == 'regress':
+    regress(sys.argv[2], sys.argv[3:])
+    sys.exit(0)
   if cmd == 'prompt':
     print(prompt(sys.argv[2], sys.argv[3]))
   elif cmd == 'verify':
